@@ -175,3 +175,18 @@ package mapping
 //@   ensures [canonicalised-the-tag-key] calls(getValue) == 1 && u.opts.canonicalKey != nil ==> arg(u.opts.canonicalKey, 0) == ret(parseOptionsWithContext, 0)
 //@   ensures [looked-up-under-canonical-key] calls(getValue) == 1 && u.opts.canonicalKey != nil ==> arg(getValue, 1) == ret(u.opts.canonicalKey)
 //@   ensures [looked-up-under-key] calls(getValue) == 1 && u.opts.canonicalKey == nil ==> arg(getValue, 1) == ret(parseOptionsWithContext, 0)
+
+// processFieldNotFromString: a nested object is unmarshalled into its struct from ITS OWN entries only (a simple
+// valuer over the object; enclosing objects are consulted only for fields tagged `inherit`, through the parent
+// link) - so an absent optional field stays zero and an absent required one fails even if an outer object has a
+// key of the same name; every other shape goes to its own filler and primitives to processFieldPrimitive.
+//@ func (*Unmarshaler).processFieldNotFromString
+//@   prop C05
+//@   opaque Deref, processFieldStruct, fillMap, fillMapFromString, fillSliceFromString, fillDurationValue, processFieldPrimitive
+//@   requires u != nil
+//@   let typeKind = ret(Kind, 0, 1)
+//@   let valueKind = ret(Kind, 0, 2)
+//@   let sv = unbox(arg(processFieldStruct, 3), ptr(simpleValuer))
+//@   ensures [object-into-struct-from-its-own-entries] valueKind == 21 && typeKind == 25 && typeis(vp.value, map[string]any) ==> calls(u.processFieldStruct) == 1 && typeis(arg(processFieldStruct, 3), ptr(simpleValuer)) && sv.parent == vp.parent && typeis(sv.current, mapValuer) && unbox(sv.current, mapValuer) == unbox(vp.value, map[string]any) && result == ret(processFieldStruct)
+//@   ensures [foreign-map-is-a-mismatch] valueKind == 21 && typeKind == 25 && !typeis(vp.value, map[string]any) ==> result == errTypeMismatch && calls(processFieldStruct) == 0
+//@   ensures [primitive-path] !(valueKind == 21 && (typeKind == 25 || typeKind == 21)) && valueKind != 24 ==> calls(u.processFieldPrimitive) == 1 && arg(processFieldPrimitive, 3) == vp.value && result == ret(processFieldPrimitive)
